@@ -90,3 +90,14 @@ TEXT['C02'].update(
     level_note='Hypotheses taken from other properties: cmp is a total preorder (C07), sort returns a cmp-non-decreasing permutation (C07), '
                'dictable.__getitem__ projections (C01). Trusted: VC generator, array/list axioms, z3/cvc5. Known finding: xor with zero key columns.',
     technique='contract-based deductive verification (AST-generated VCs, loop invariants, ghost state, z3/cvc5) + bounded run-time contract check')
+
+PROPS['C01'].update(level='other', explanation='Deductive (counted as proved): dictable.__setitem__ keeps the table rectangular on its three accepting paths and '
+    'raises ValueError before anything is stored otherwise; __len__ is the common column length; get returns one entry per row; integer row access satisfies '
+    'd[i][c] == d[c][i] for every column. Bounded (not proved): construction forms, masks / slices / integer lists, concat, relabel, do, derived columns, '
+    'whole operation histories against the list-of-records model, operands unchanged.')
+TEXT['C01'].update(
+    level_text='Mixed: the representation invariant is proved for the operations that write into a table (__setitem__) and read rows (__len__, get, d[i]) for all '
+               'tables and values; "any operation history" is an induction over operations of which only those are proved - the remaining operations and the '
+               'model equality of whole histories are bounded, so the claim is "other".',
+    level_note='Callee contracts: lens (C19), dict-level __setitem__/__getitem__ axioms, list repeat axiom for lengths 0/1. Trusted: VC generator, z3/cvc5.',
+    technique='contract-based deductive verification (AST-generated VCs over a map-of-columns model, z3/cvc5) + bounded run-time contract check')
